@@ -495,14 +495,26 @@ func checkC11(c *ev.Ctx) {
 		bound = 3
 	}
 	// determinism self-check
-	{
+	nondet := false
+	if st := stallGuard(func() {
 		k := c11Case{Ops: []string{"List", "Forward"}}
 		_, r1, f1, _ := c11Run(k, []int{1})
 		_, r2, f2, _ := c11Run(k, []int{1})
-		if fmt.Sprint(r1, f1) != fmt.Sprint(r2, f2) {
-			c.Violation("C11:harness:nondeterministic-replay", "the same schedule produced different observations", nil)
-			return
+		nondet = fmt.Sprint(r1, f1) != fmt.Sprint(r2, f2)
+	}); st != nil {
+		// the scheduler cannot drive this implementation at all (it starts goroutines of its own, or blocks outside the
+		// hooked operations): no exploration, the result is not exhaustive, the free-running side passes still run
+		c.Cap("scheduler stalled in the self-check, exploration abandoned: " + st.Error())
+		c.Set("scheduler_stall", st.Error())
+		if !c.IsChild() {
+			racePass(c)
+			c11SlowUpstream(c)
 		}
+		return
+	}
+	if nondet {
+		c.Violation("C11:harness:nondeterministic-replay", "the same schedule produced different observations", nil)
+		return
 	}
 	c.Sharded(8, 8, func(shard int) {
 		if st := stallGuard(func() {
